@@ -60,7 +60,14 @@ def plan_cases(ctx):
         kind = "szdd" if k % 3 == 0 else "kwaj"
         case = S.vgen_case(rng, kind, rng.choice(["small", "small", "medium"]))
         m = case["members"][0]
-        lines = S.file_lines(case) + S.generic_ops(case)
+        ops = S.generic_ops(case)
+        if k % 3 == 1:
+            # other calls on the same decompressor fail between open() and extract(): the result must not change
+            j = next(i for i, o in enumerate(ops) if o.startswith("extract"))
+            ops = ops[:j] + ["open i0 no-such-file", "open i0 junk.bin", "extract i0 h0 - out", "open i0 junk.bin"] + ops[j:]
+            ops = [o for i, o in enumerate(ops) if not (o == "extract i0 h0 - out" and i == j + 2)]    # keep one extract: the judged one, after the failures
+            ops.insert(0, "file junk.bin 6e6f742061206b77616a206f7220737a64642066696c65")
+        lines = S.file_lines(case) + ops
         yield lines, dict(family=kind + ".plan", expect=digest(m["data"]), hdr=case["meta"].get("expect"), plan=S.short_meta(case),
                           nontrivial=len(m["data"]) > 0)
     # directed: LZH streams cut as short as they can be (the decoder's end-of-input rule is applied
